@@ -1,5 +1,6 @@
 (* Frame.v — the dependency hypothesis of the refinement theorem is PROVED for "flat" rule sets:
-   every variable is a top-level name or a chain of fields below one (N, F.X, F.In.X, … - no selectors),
+   every variable is a top-level name or a chain of fields and literal selectors below one
+   (N, F.X, F.In.X, F.Arr[2], F.M["k"] - no computed selectors),
    expressions are built from such variables,
    constants, negation, parentheses and the binary operators; actions are assignments to such
    variables and control built-ins with flat arguments.  For these rule sets C01, C02, C04, C07,
@@ -9,14 +10,25 @@ From Grule Require Import Base Values Syntax CmpGen ArithGen OpsGen Snapshot Pri
      FactsProofs ActionTheorems SnapContain MemoProofs MemoKeep Refinement.
 Open Scope Z_scope.
 
+(* a selector that is a literal index or key *)
+Definition sel_step (sel : expr) : option step :=
+  match sel with
+  | EAtom (AConst (CInt i)) => Some (SIndex i)
+  | EAtom (AConst (CStr k)) => Some (SKey k)
+  | _ => None
+  end.
 Fixpoint flat_var (x : var) : bool :=
-  match x with VName _ => true | VMember x' _ => flat_var x' | VSel _ _ => false end.
+  match x with
+  | VName _ => true
+  | VMember x' _ => flat_var x'
+  | VSel x' sel => flat_var x' && match sel_step sel with Some _ => true | None => false end
+  end.
 (* the location a flat variable denotes *)
 Fixpoint spath (x : var) : path :=
   match x with
   | VName r => {| p_root := r; p_steps := [] |}
   | VMember x' f => path_snoc (spath x') (SField f)
-  | VSel x' _ => spath x'
+  | VSel x' sel => match sel_step sel with Some st => path_snoc (spath x') st | None => spath x' end
   end.
 Fixpoint flat_atom (a : atom) : bool :=
   match a with
@@ -146,6 +158,34 @@ Lemma view_kept_scalar : forall fx fx' p, view_kept fx fx' p -> scalar_of fx' (R
 Proof.
   intros fx fx' p [E|(c & c' & A & B & C & D)]; unfold scalar_of; [rewrite E; reflexivity|]. rewrite A, B.
   destruct c as [x|fs|[t|]|xs|kvs]; destruct c' as [x'|fs'|[t'|]|xs'|kvs']; simpl in *; try discriminate; try reflexivity. congruence.
+Qed.
+
+(* selecting with a literal: determined by the shape of the container and what the element's location shows *)
+Definition sel_val (st : step) : val :=
+  match st with SIndex i => VInt I64 i | SKey k => VStr k | SField _ => VNil end.
+Lemma sel_step_val : forall fx sel st, sel_step sel = Some st ->
+  fresh_expr fx sel = Ok (RV (sel_val st)) /\ (match st with SField _ => False | _ => True end).
+Proof.
+  intros fx sel st H. destruct sel as [a| |]; try discriminate. destruct a as [c| | | | | |]; try discriminate.
+  destruct c as [k|i| | |]; inversion H; subst; simpl; split; auto; rewrite fresh_expr_unfold, fresh_atom_unfold; reflexivity.
+Qed.
+
+Lemma child_sel_view : forall fx fx' p st,
+  match st with SField _ => False | _ => True end ->
+  view_kept fx fx' p -> view_kept fx fx' (path_snoc p st) ->
+  child_sel_f fx' (RRef p) (sel_val st) = child_sel_f fx (RRef p) (sel_val st).
+Proof.
+  intros fx fx' p st Hst Kp Ks. unfold child_sel_f.
+  pose proof (view_kept_rval _ _ _ Ks) as R. rewrite !path_get_snoc in R.
+  destruct Kp as [E|(c & c' & A & B & C & D)]; [rewrite E in *|rewrite A, B in *].
+  - destruct (path_get fx p) as [c| |]; try reflexivity.
+    destruct st as [f|i|k]; [contradiction| |]; simpl in *.
+    + destruct c as [x|fs|[t|]|xs|kvs]; try reflexivity.
+    + destruct c as [x|fs|[t|]|xs|kvs]; try reflexivity.
+  - destruct st as [f|i|k]; [contradiction| |]; simpl in *;
+      destruct c as [x|fs|[t|]|xs|kvs]; destruct c' as [x'|fs'|[t'|]|xs'|kvs']; simpl in C, D; try discriminate; try congruence; try reflexivity.
+    + destruct (nth_z xs' i); destruct (nth_z xs i); simpl in R; try discriminate; congruence.
+    + destruct (field_get kvs' k); destruct (field_get kvs k); simpl in R; try discriminate; congruence.
 Qed.
 
 (* a write to location q, seen from location p that q is not a prefix of *)
